@@ -468,11 +468,14 @@ func (fr *Frame) call(ci ssa.CallInstruction, c *ssa.CallCommon) []*Term {
 				argTypes = append(argTypes, c.Value.Type())
 				enc.oblige("safety:nil", fr.where(ci), "method call on nil interface", nil, fr.curPC, Not(Eq(args[0], Leaf("any_nil"))))
 			}
+			copyOut := fr.interiorArgsIn(c, callee)
 			for _, a := range c.Args {
 				args = append(args, fr.val(a))
 				argTypes = append(argTypes, a.Type())
 			}
-			return fr.applyContract(fc, key, ci, args, argTypes, resTypes)
+			res := fr.applyContract(fc, key, ci, args, argTypes, resTypes)
+			copyOut()
+			return res
 		}
 	}
 	// interface method with a specification function (iface clause)
@@ -1231,4 +1234,132 @@ func ciName(ci ssa.CallInstruction) string {
 		return v.Name()
 	}
 	return "deferred"
+}
+
+// interiorArgsIn handles arguments that are the address of a struct-typed field of an object (&p.opts): the memory
+// model has no interior pointers, so the field's value is copied into a fresh object, the callee works on that
+// object under its contract, and the result is copied back afterwards.  This is exact provided the callee cannot
+// reach the field any other way, which is checked syntactically: neither the callee nor anything it calls
+// (transitively, within the repository) mentions that field of that struct type.  Otherwise the call stays
+// outside the subset.
+func (fr *Frame) interiorArgsIn(c *ssa.CallCommon, callee *ssa.Function) func() {
+	type pending struct {
+		v   ssa.Value
+		lv  *LVal
+		tmp *LVal
+	}
+	var ps []pending
+	for _, a := range c.Args {
+		if _, has := fr.vals[a]; has {
+			continue
+		}
+		lv, ok := fr.lvals[a]
+		if !ok || lv.Kind != lvField || (lv.Idx == 0 && lv.Parent.Kind == lvRef) {
+			continue
+		}
+		if _, isStruct := lv.Ty.Underlying().(*types.Struct); !isStruct || isBuilderType(lv.Ty) {
+			continue
+		}
+		if callee == nil {
+			fr.enc.unsup("%s: interior pointer %s passed to a dynamic call", fr.fn.Name(), a.Name())
+		}
+		if why := fieldReachable(callee, lv.Parent.Ty, lv.Idx, map[*ssa.Function]bool{}); why != "" {
+			fr.enc.unsup("%s: interior pointer %s passed to %s, which may also reach the field itself (%s)", fr.fn.Name(), a.Name(), callee.Name(), why)
+		}
+		cnt := fr.cur.Get("$cnt", "Int")
+		ref := fr.enc.define(fr.pfx+"tmpobj", "Int", cnt)
+		fr.bumpCnt()
+		tmp := &LVal{Kind: lvRef, Ref: ref, Ty: lv.Ty}
+		fr.store(tmp, fr.load(lv, fr.cur), fr.cur)
+		fr.vals[a] = ref
+		ps = append(ps, pending{a, lv, tmp})
+		fr.enc.w.assumptions["the address of a struct field passed to a contracted callee is modelled by copy-in/copy-out (the callee and its callees do not mention that field: checked)"] = true
+	}
+	return func() {
+		for _, p := range ps {
+			fr.store(p.lv, fr.load(p.tmp, fr.cur), fr.cur)
+			delete(fr.vals, p.v)
+		}
+	}
+}
+
+// fieldReachable reports (as a non-empty reason) whether fn or a function it may call mentions field idx of struct type st.
+func fieldReachable(fn *ssa.Function, st types.Type, idx int, seen map[*ssa.Function]bool) string {
+	if fn == nil || seen[fn] {
+		return ""
+	}
+	seen[fn] = true
+	if fn.Blocks == nil || fn.Pkg == nil || fn.Pkg.Pkg == nil || !strings.HasPrefix(fn.Pkg.Pkg.Path(), moduleOfType(st)) {
+		// code outside the repository cannot name a field of a repository struct (reflection aside: fmt verbs
+		// may read it, which only feeds uninterpreted formatted text)
+		if fn.Pkg != nil || fn.Blocks == nil {
+			return ""
+		}
+	}
+	same := func(t types.Type) bool {
+		if pt, ok := t.Underlying().(*types.Pointer); ok {
+			t = pt.Elem()
+		}
+		return types.Identical(t, st)
+	}
+	for _, b := range fn.Blocks {
+		for _, ins := range b.Instrs {
+			switch x := ins.(type) {
+			case *ssa.FieldAddr:
+				if x.Field == idx && same(x.X.Type()) {
+					return fn.Name() + " takes the field's address"
+				}
+			case *ssa.Field:
+				if x.Field == idx && same(x.X.Type()) {
+					return fn.Name() + " reads the field"
+				}
+			case *ssa.UnOp:
+				// *p of the whole struct reads every field
+				if x.Op == token.MUL && types.Identical(x.Type(), st) {
+					return fn.Name() + " loads the whole struct"
+				}
+			case *ssa.Store:
+				if types.Identical(x.Val.Type(), st) {
+					return fn.Name() + " stores the whole struct"
+				}
+			case *ssa.MakeClosure:
+				if r := fieldReachable(x.Fn.(*ssa.Function), st, idx, seen); r != "" {
+					return r
+				}
+			case ssa.CallInstruction:
+				cc := x.Common()
+				if cc.IsInvoke() {
+					// an interface method: any implementation in the repository may run
+					if pkg := cc.Method.Pkg(); pkg != nil && strings.HasPrefix(pkg.Path(), moduleOfType(st)) {
+						return fn.Name() + " invokes repository interface method " + cc.Method.Name()
+					}
+					continue
+				}
+				if sc := cc.StaticCallee(); sc != nil {
+					if r := fieldReachable(sc, st, idx, seen); r != "" {
+						return r
+					}
+					continue
+				}
+				if _, isBuiltin := cc.Value.(*ssa.Builtin); isBuiltin {
+					continue
+				}
+				return fn.Name() + " calls a function value"
+			}
+		}
+	}
+	return ""
+}
+
+// moduleOfType: the module path prefix of the package declaring (named) struct type st.
+func moduleOfType(st types.Type) string {
+	n, ok := st.(*types.Named)
+	if !ok || n.Obj().Pkg() == nil {
+		return "\x00"
+	}
+	p := n.Obj().Pkg().Path()
+	if i := strings.Index(p, "/pkg/"); i > 0 {
+		return p[:i]
+	}
+	return p
 }
